@@ -232,3 +232,116 @@ UNITS += [
                       "Sense values are proper bools (0/1)"],
          note="LogicEvaluator::operator(): for every well-formed postfix string of any length <= 4096 with depth <= 64: every LogicStack precondition holds at its call site, the default branch is unreachable, the stack ends with one element and the result equals the array-stack evaluation (lock-step loop invariant over the abstract stack view)"),
 ]
+
+
+# ---------------------------------------------------------------------------
+# InfixEvaluator: bounded equivalence with a reference infix evaluator
+# ---------------------------------------------------------------------------
+IE_RULES = [
+    Rule(r"\b(int|size_type|bool) (\w+)\{([^{}]*)\};", r"\1 \2 = \3;", "+", note="brace initialisation of a scalar"),
+    Rule(r"if \(logic_int const lgc\{logic_\[i\]\}; ", "logic_int const lgc = LOGIC_AT(self, i); if (", (0, 1), note="C++17 if-with-initializer -> declaration + if (same block)"),
+    Rule(r"if \(logic_int lgc = logic_\[\+\+i\]; ", "logic_int lgc = LOGIC_AT(self, ++i); if (", (0, 1), note="C++17 if-with-initializer -> declaration + if (same block)"),
+    Rule(r"logic_\.size\(\)", "self->logic_.size", "*", note="Span::size()"),
+    Rule(r"logic_\[([^\[\]]*)\]", r"LOGIC_AT(self, \1)", "*", note="Span::operator[] -> bounds assertion + index"),
+    Rule(r"logic::is_operator_token\(", "logic_is_operator_token(", "*", note="namespace function"),
+    Rule(r"logic::(l\w+)", r"logic_\1", "*", note="namespace-scope enumerator"),
+    Rule(r"eval_sense\(FaceId\{([^{}]*)\}\)", r"EVAL_SENSE(\1)", "*", note="functor F -> macro over the symbolic sense table; FaceId{x} -> x"),
+    Rule(r"this->short_circuit\(i\)", "IE_short_circuit(self, i)", (0, 1), note="member call"),
+    Rule(r"CELER_ASSUME\(", "CELER_ASSERT(", "*", note="CELER_ASSUME (compiler assumption, UB if false) -> obligation"),
+]
+
+IE_SPEC = """
+#define NTOK %d
+#define NFACE 3
+bool g_senses[NFACE];
+#define EVAL_SENSE(id) (g_senses[(id)])
+static logic_int LOGIC_AT(LogicEvaluator const* self, size_type i) { __CPROVER_assert(i < self->logic_.size, "celer_expect: Span::operator[] i < size"); return self->logic_.ptr[i]; }
+/* Reference: plain evaluation of the infix grammar
+ *   group := '(' item (op item)* ')' with ONE operator kind per group;  item := face | '~' face | '*' | group
+ * top level is one item or an unparenthesised single-operator list.  No short-circuiting.  *valid is cleared for malformed input. */
+static bool spec_infix(logic_int const* t, unsigned n, bool* valid)
+{
+    bool acc[NTOK + 2]; logic_int op[NTOK + 2]; bool have[NTOK + 2];   /* frame stack */
+    unsigned d = 0; acc[0] = 0; op[0] = 0; have[0] = 0;
+    bool expect_item = 1; *valid = 1;
+    for (unsigned i = 0; i < NTOK; ++i)
+    {
+        if (i >= n) break;
+        logic_int g = t[i];
+        bool is_item = 0, v = 0;
+        if (g < logic_lbegin) { if (g >= NFACE) *valid = 0; else { v = g_senses[g]; } is_item = 1; }
+        else if (g == logic_ltrue) { v = 1; is_item = 1; }
+        else if (g == logic_lnot)
+        {
+            if (i + 1 >= n || t[i + 1] >= NFACE) { *valid = 0; } else { v = !g_senses[t[i + 1]]; }
+            is_item = 1; ++i;
+        }
+        else if (g == logic_lopen) { if (!expect_item) *valid = 0; ++d; acc[d] = 0; op[d] = 0; have[d] = 0; expect_item = 1; continue; }
+        else if (g == logic_lclose)
+        {
+            if (d == 0 || expect_item || !have[d]) { *valid = 0; return 0; }
+            v = acc[d]; --d; is_item = 1; expect_item = 1;   /* the closed group is the item its parent was waiting for */
+        }
+        else if (g == logic_lor || g == logic_land)
+        {
+            if (expect_item || (op[d] != 0 && op[d] != g)) *valid = 0;
+            op[d] = g; expect_item = 1; continue;
+        }
+        else { *valid = 0; }
+        if (is_item)
+        {
+            if (!expect_item) *valid = 0;
+            if (!have[d]) { acc[d] = v; have[d] = 1; }
+            else if (op[d] == logic_lor) acc[d] = acc[d] || v;
+            else if (op[d] == logic_land) acc[d] = acc[d] && v;
+            else *valid = 0;
+            expect_item = 0;
+        }
+    }
+    if (d != 0 || expect_item) *valid = 0;
+    return acc[0];
+}
+"""
+
+
+def build_infix(N):
+    def build(ctx):
+        toks = logic_tokens(ctx)
+        sc = ctx.func(IE, r"CELER_FUNCTION size_type InfixEvaluator::short_circuit\(size_type i\) const", IE_RULES, name="InfixEvaluator::short_circuit")
+        op = ctx.func(IE, r"CELER_FUNCTION bool InfixEvaluator::operator\(\)\(F&& eval_sense\) const", IE_RULES, name="InfixEvaluator::operator()")
+        return (HDR + LS_TYPES.split("/* ---- abstract view")[0] + toks + LE_TYPES + IE_SPEC % N + """
+static size_type IE_short_circuit(LogicEvaluator const* self, size_type i)
+{""" + sc.body + """}
+static bool IE_call(LogicEvaluator const* self)
+{""" + op.body + """}
+void h_infix(void)
+{
+    logic_int t[NTOK]; unsigned n; bool valid;
+    __CPROVER_assume(n >= 1 && n <= NTOK);
+    for (unsigned i = 0; i < NFACE; ++i) { unsigned r; g_senses[i] = (r != 0); }
+    bool want = spec_infix(t, n, &valid);
+    __CPROVER_assume(valid);
+    LogicEvaluator ev = {{t, n}};
+    bool got = IE_call(&ev);
+    /* reachability guards (must FAIL): nested groups with a short-circuit over a nested group are among the valid inputs */
+    __CPROVER_assert(!(n == 7 && t[0] == logic_lopen && t[2] == logic_lor && t[3] == logic_lopen && g_senses[0]), "cover.nested_group_after_or");
+    __CPROVER_assert(!(n >= 9 && t[0] == logic_lopen && t[1] == logic_lopen && t[2] == logic_lnot), "cover.group_first_with_negation");
+    __CPROVER_assert(got == want, "infix.equiv: short-circuit evaluation equals plain evaluation of the infix expression");
+    VERIF_CANARY();
+}
+""")
+    return build
+
+
+UNITS += [
+    Unit("c10_infix_n9", build_infix(9), "h_infix", unwind=11, timeout=900,
+         bounded="every well-formed infix string of <= 9 tokens over 3 faces, all sense assignments (symbolic)",
+         must_have=[r"infix.equiv", r"celer_assert", r"celer_expect", r"unwinding assertion"], checks=["--bounds-check", "--pointer-check"],
+         assumptions=["infix grammar as emitted by InfixStringBuilder: one operator kind per parenthesised group, negation of faces only"],
+         note="InfixEvaluator (operator() and short_circuit) == plain infix evaluation (bounded)"),
+    Unit("c10_infix_n13", build_infix(13), "h_infix", unwind=15, timeout=7200, tier="thorough",
+         bounded="every well-formed infix string of <= 13 tokens over 3 faces (three nesting levels with content)",
+         must_have=[r"infix.equiv", r"unwinding assertion"], checks=["--bounds-check", "--pointer-check"],
+         assumptions=["infix grammar as emitted by InfixStringBuilder"],
+         note="InfixEvaluator == plain infix evaluation (bounded, thorough)"),
+]
